@@ -550,8 +550,14 @@ pub fn check_conv_faults(ctx: &Ctx, out: &mut Outcome, q: u32, t: u32) {
 
 pub fn check_sampled(ctx: &Ctx, prop: E7Prop, out: &mut Outcome, q: u32, t: u32, rule: &str) {
     let th = ctx.tier == Tier::Thorough;
-    let strat = move || scase_strategy(th);
-    let exec = move |c: &SCase| run_sampled(c, prop);
+    let strat = move || scase_strategy(th, prop == E7Prop::C20);
+    let exec = move |c: &SCase| {
+        let mut r = run_sampled(c, prop);
+        if prop == E7Prop::C20 && r.violation.is_none() && r.aborted_by_panic.is_none() {
+            r.violation = crate::e7::run_sampled_str(c);
+        }
+        r
+    };
     let hash_case = |c: &SCase| {
         let mut d = Case { kind: Kind::Lru, cfg: Cfg::simple(1), keys: KeyMode::Tracked, alphabet: 0, ops: vec![] };
         d.cfg.sketch_seed = Some(fnv64(serde_json::to_string(c).unwrap_or_default().as_bytes()));
